@@ -362,3 +362,4 @@ def oracle_c13(name, inst, res):
         elif got:
             return "amb emitted without input"
     return None
+
